@@ -145,6 +145,11 @@ func (h *Sources) Redo() {
 		return
 	}
 
+	// Nothing has been undone, or we are back on the last state.
+	if line.pos < 1 {
+		return
+	}
+
 	line.pos--
 
 	if line.pos < 1 {
